@@ -32,8 +32,10 @@ structure Vote where
   typ : VType
   round : Nat
   bid : Bid
-  val : Nat
-  sigOK : Bool
+  val : Nat        -- ValidatorIndex
+  sigOK : Bool     -- the signature bytes are an intact signature by `signer`'s key
+  addr : Nat       -- index of the validator whose address is in ValidatorAddress
+  signer : Nat     -- index of the validator whose key signed
   deriving DecidableEq, Repr, Inhabited
 
 structure Proposal where
@@ -133,8 +135,9 @@ def VoteSet.addVerified (c : Cfg) (vs : VoteSet) (idx : Nat) (key : Bid) : VoteS
 /-- `VoteSet.addVote` (height/round/type already match by construction) -/
 def VoteSet.addVote (c : Cfg) (vs : VoteSet) (v : Vote) : VoteSet × Bool :=
   if v.val ≥ c.n then (vs, false)                 -- ErrVoteInvalidValidatorIndex
+  else if v.addr ≠ v.val then (vs, false)         -- ErrVoteInvalidValidatorAddress
   else if vs.getVote v.val v.bid then (vs, false) -- duplicate / non-deterministic signature
-  else if !v.sigOK then (vs, false)               -- invalid signature
+  else if !(v.sigOK && v.signer = v.val) then (vs, false)   -- vote.Verify against the pubkey at ValidatorIndex
   else vs.addVerified c v.val v.bid
 
 /-- `VoteSet.SetPeerMaj23` -/
@@ -335,7 +338,7 @@ def signAddVote (c : Cfg) (s : NodeState) (t : VType) (bid : Bid) : NodeState :=
     match sign c s s.round t.code (.vote bid) with
     | some s' =>
       let s' := emit s' (.signVote t s.round bid)
-      { s' with queue := s'.queue ++ [.vote ⟨t, s.round, bid, me, true⟩] }
+      { s' with queue := s'.queue ++ [.vote ⟨t, s.round, bid, me, true, me, me⟩] }
     | none => s
 
 /-- `isProposalComplete` -/
